@@ -134,7 +134,8 @@ class _TextProp:
 
     def project(self, case, out):
         if isinstance(out, dict) and 'ok' in out:
-            return {'ok': [f['contents'] for f in out['ok']['files'][:2]]}
+            from harness.common import code_of
+            return {'ok': [code_of(f['contents']) for f in out['ok']['files'][:2]]}
         return out
 
 
